@@ -47,6 +47,15 @@ def _exact_cases():
             sc = [("net", "refuse"), ("open",), ("adv", 1)] + [("send", i, "ok", pol) for i in range(1, n + 1)] + [("adv", 2)]
             sc += [("send", 20 + i, "ok", "idem") for i in range(10)] + [("net", "accept"), ("adv", 24)]
             out.append(("outage", sc))
+    # a connection subscriber that sends from inside its `connected` notification (as the API objects do: version / status requests):
+    # at that moment the socket calls itself connected while the held messages are still in the buffer.  Expired ones among them must
+    # be discarded first, exactly as for a send made while the link is down - the subscriber's message is accepted
+    for n_long, n_short in ((4, 6), (0, 10), (9, 1), (5, 5)):
+        for gap in (9, 40):
+            sc = [("subsend", 50, "ok", "conn"), ("net", "refuse"), ("open",), ("adv", 1)]
+            sc += [("send", 1 + i, "ok", "idem") for i in range(n_long)] + [("send", 20 + i, "ok", "conn") for i in range(n_short)]
+            sc += [("adv", gap), ("net", "accept"), ("adv", 24)]
+            out.append(("outage", sc))
     return out
 
 
